@@ -155,7 +155,7 @@ PROPS['C08'] = {
 PROPS['C12'] = {
     'level': 'exploration',
     'trusted_extra': ['sub-slice write shims slice_copy_at / slice_fill_at / be_write_uN_at_slice (vx/shims/slices.rs; cross-checked by KX k_shim_slices), String::as_bytes/len = UTF-8 encoding (vx/shims/string.rs)'],
-    'vx': [{'unit': 'writers'}, {'unit': 'attrs', 'functions': ['to_raw', 'length', 'get_type', "RawAttribute<'a> :: new", 'padded']}, {'unit': 'builder', 'functions': ['write_into', 'into_owned', 'to_owned', 'lemma_layout_congruent']}],
+    'vx': [{'unit': 'writers'}, {'unit': 'attrs', 'functions': ['to_raw', 'length', 'get_type', "RawAttribute<'a> :: new", 'padded']}, {'unit': 'builder', 'functions': ['write_into', 'into_owned', 'to_owned', 'lemma_layout_congruent', 'theorem_same_contents_same_bytes']}],
     'kx': ['k_shim_slices', 'k_shim_write_u16', 'k_shim_u128', 'k03_build_small'] + ['k12_raw_attribute'] + [k for k in _ATTR_K if k not in ('k_check_len', 'k08_error_code_new', 'k08_unknown_attributes_small')],
     'bx': ['c12'],
     'rule': 'Kani harnesses: helper check_writers (in-place writer vs RFC layout vs raw conversion, 0xAA-filled oversize buffer, every shorter buffer) on every decodable value of the fixed-size types; BX for variable-length types and builders.',
@@ -165,7 +165,7 @@ PROPS['C12'] = {
                '(Kani, complete) fixed-size types incl. FINGERPRINT, XOR-MAPPED-ADDRESS, ALTERNATE-SERVER, PASSWORD-ALGORITHM: write_into == RFC layout == to_raw(); every shorter destination => TooSmall, destination untouched',
                '(Verus, unit builder, attribute lists of ANY length) MessageBuilder::write_into: a destination shorter than byte_len() => Err(TooSmall{expected: byte_len, actual}) and nothing written; an exact or larger one receives header + TLVs, the length is reported and nothing beyond it is touched',
                '(Verus, unit writers / attrs) to_raw() of ERROR-CODE, UNKNOWN-ATTRIBUTES, PASSWORD-ALGORITHMS (lists of any length; RawAttribute::new_owned) and of the five string types has the same type and exactly the value bytes of the in-place writer - with RawAttribute::to_bytes == tlv_bytes this is "writing in place and converting to raw and serialising give the same bytes" for 8 variable-length types + raw; the fixed-size types by Kani',
-               '(Verus, unit builder) borrowed -> owned: Data::into_owned, DataSlice::to_owned, RawAttribute::into_owned keep header and value bytes; AttrOrRaw::into_owned turns a typed attribute into a raw one of the same type and value (over the to_raw contract); MessageBuilder::into_owned (into_iter().map().collect(), specified by vstd) keeps header fields and, element by element in order, type and value bytes; lemma_layout_congruent: such a builder has the same layout - so write_into after into_owned() writes identical bytes'],
+               '(Verus, unit builder) borrowed -> owned: Data::into_owned, DataSlice::to_owned, RawAttribute::into_owned keep header and value bytes; AttrOrRaw::into_owned turns a typed attribute into a raw one of the same type and value (over the to_raw contract); MessageBuilder::into_owned (into_iter().map().collect(), specified by vstd) keeps header fields and, element by element in order, type and value bytes; lemma_layout_congruent / theorem_same_contents_same_bytes: such a builder has the same layout and the same bytes() - so write_into after into_owned() writes identical bytes'],
     'bounded': ['MessageBuilder::clone() (derived; Verus gives derived Clone of non-Copy types no specification): BX', 'MessageBuilder build() == write_into() bytes, byte_len (iterator sum; assumed in VX), into_owned/clone (dyn AttributeWrite -> to_raw): BX'],
     'trusted': _KX_TRUST,
 }
@@ -286,13 +286,13 @@ PROPS['C11'] = {
 PROPS['C04'] = {
     'level': 'proof',
     'vx': [{'unit': 'integrity'}, {'unit': 'parse', 'functions': ["Message<'a> :: from_bytes", 'next']},
-           {'unit': 'builder', 'functions': ['add_message_integrity', 'add_message_integrity_unchecked', 'integrity_bytes_from_message', 'theorem_sealed_sha1', 'theorem_sealed_sha256', 'lemma_last_tlv', 'MessageIntegrity :: new', 'MessageIntegritySha256 :: new']}],
+           {'unit': 'builder', 'functions': ['add_message_integrity', 'add_message_integrity_unchecked', 'integrity_bytes_from_message', 'theorem_sealed_sha1', 'theorem_sealed_sha256', 'theorem_sealed_message_validates', 'lemma_first_exposed_then', 'lemma_layout_head', 'lemma_last_tlv', 'MessageIntegrity :: new', 'MessageIntegritySha256 :: new']}],
     'bx': ['c04'],
     'rule': 'see engines.bx[0].rule',
     'proved': ['(unit integrity) Message::validate_integrity on every accepted message: no exposed integrity attribute => Err(MissingAttribute); an exposed MESSAGE-INTEGRITY-SHA256 is the attribute checked and Ok(Sha256) <=> its length is 16..32 step 4 and its value == HMAC-SHA256(key, message prefix with the length field set to the end of the attribute) truncated; otherwise Ok(Sha1) <=> the exposed MESSAGE-INTEGRITY is 20 bytes == HMAC-SHA1(key, prefix with rewritten length); the unreachable!() after the scan is unreachable; no overflow in the 16-bit length arithmetic',
                'MessageIntegrity / MessageIntegritySha256 decoders accept exactly (type, length) per RFC and expose the value bytes',
                '(unit parse) every accepted buffer is tiled by TLVs and the iterator exposes the integrity attributes per the C10 rule',
-               '(unit builder) builder side: add_message_integrity(_unchecked) appends MESSAGE-INTEGRITY = HMAC-SHA1(key, build() with the length field +24) resp. MESSAGE-INTEGRITY-SHA256 = HMAC-SHA256(key, build() with the length field +36), key = make_hmac_key(credentials); theorem_sealed_sha1/sha256: the serialisation of the sealed builder satisfies exactly the predicate (mi_correct / mi256_correct) under which validate_integrity is proved to answer Ok'],
+               '(unit builder) builder side: add_message_integrity(_unchecked) appends MESSAGE-INTEGRITY = HMAC-SHA1(key, build() with the length field +24) resp. MESSAGE-INTEGRITY-SHA256 = HMAC-SHA256(key, build() with the length field +36), key = make_hmac_key(credentials); theorem_sealed_sha1/sha256: the serialisation of the sealed builder satisfies exactly the predicate (mi_correct / mi256_correct) under which validate_integrity is proved to answer Ok; theorem_sealed_message_validates: for a builder of non-sealing attributes sealed once, the appended attribute is the FIRST EXPOSED integrity attribute of the serialised message (and no MESSAGE-INTEGRITY-SHA256 is exposed in the SHA-1 case) - together the premises of clauses [C04.sha1] / [C04.sha256] of validate_integrity, i.e. the message a builder seals validates under the same credentials'],
     'bounded': ['raw_attribute (iterator adaptor find) returns the first exposed attribute of the type: assumed in VX, checked by BX (C02:lookup-first-match)',
                 'key derivation make_hmac_key (password / MD5(user:realm:password)), agreement of the hmac/sha crates with RFC 2104, tamper evidence on concrete messages, build() == header + TLVs (assumed in unit builder): BX against independent HMAC-SHA1/SHA256/MD5'],
     'trusted': _BX_TRUST + ['hmac / sha1 / sha2 / md-5 crates (their agreement with the independent implementations is checked on every BX case, not proved)'],
